@@ -56,7 +56,7 @@ NOT_PROVED = ['e_i >= 1 in the release profile for absurd pusize (pusize <> p wi
 RULE = ('factorize_mod_p on every coefficient vector up to a degree bound over F_2, F_3, F_5, F_7 (pusize = p); random and structured '
         'polynomials of degree <= 12 (thorough: 16) over p in {11, 13, 101, 65537, 2^61-1, nextprime(2^64)}: planted products of distinct '
         'irreducibles with multiplicities, p-th powers, g^p h^2, > 2 equal-degree irreducible factors, leading coefficient divisible by p, '
-        'negative coefficients / shifted by multiples of p; pusize in {p, 0, 7} whenever p > deg f; the stages and the primitives '
+        'negative coefficients / shifted by multiples of p; pusize in {p, 0, 7} whenever p > deg f; f = g(x^k) with pusize = k, 2k for primes p > deg f (up to beyond 2^64); the stages and the primitives '
         'separately; non-trivial = f mod p non-constant. Random draws of the implementation are logged and replayed by the model.')
 CLAIM = dict(
     technique='Coq proof about the Gallina model of src/poly_mod/{prim,factorize_mod_p}.rs + extracted-model-vs-implementation correspondence with replayed random draws + independent oracle',
@@ -241,6 +241,19 @@ def cases(rng, tier):
         kind, f = structured(rng, pbig, 6 if not th else 8)
         for pu in [0, 7, 1, 2 ** 64 - 1]:
             out.append(fac_case(rng, f, pbig, pu, 'pusize-any-p>2^64'))
+    # the machine-word copy is a small number k >= 2 and every exponent of f is a multiple of k (f = g(x^k)), p prime > deg f (also
+    # beyond a machine word): the p-th-root branch must not be taken for k, the result is the same as for pusize = 0 / p
+    for pz in [PRIMES_BIG[-1], PRIMES_BIG[-1], 101, 65537, 2 ** 61 - 1]:
+        for _ in range(3 if not th else 12):
+            k = rng.choice([2, 2, 3, 4, 6])
+            g = [rng.randrange(0, 7) for _ in range(rng.choice([2, 3, 3]))] + [1]
+            if g[0] == 0: g[0] = 2
+            f = [0] * (k * (len(g) - 1) + 1)
+            for i_, c_ in enumerate(g): f[k * i_] = c_
+            for pu in sorted({k, 2 * k, 0} | ({pz} if fits_usize(pz) else set())):
+                out.append(fac_case(rng, f, pz, pu, 'pusize-divides-every-exponent'))
+    for pu in (2, 4, 0):
+        out.append(fac_case(rng, [2, 0, 3, 0, 1], PRIMES_BIG[-1], pu, 'pusize-divides-every-exponent'))
     # textbook / unit-test inputs and degenerate shapes
     for f, p in [([2] + [0] * 25 + [1], 3), ([0, 0, 1, 0, 1], 3), ([1, 0, 0, 1], 2), ([1, 0, 0, 0, 0, 1], 5), ([1, 2, 1], 5),
                  ([-1] + [0] * 14 + [1], 2), ([-1] + [0] * 12 + [1], 13), ([0, 1], 2), ([0, 0, 0, 0, 3], 5), ([1] * 11, 11), ([1] * 7, 2)]:
